@@ -3,7 +3,7 @@
   pass `t`), `pass_first`, `pass_next` (pass `t+1` succeeds, is pointwise above pass `t`, creates
   no head, and hands `PrevPass` on).  Core Lean only.
 -/
-import SalsaVerif.Proofs.CycleChainSim2
+import SalsaVerif.Proofs.CycleChainSim
 
 namespace SalsaVerif.Proofs.Cycle
 open SalsaVerif.Model.Cycle
@@ -26,6 +26,7 @@ structure PrevPass (l0 e r0 : St) (vl lastl : Nat) : Prop where
   lastE : e.prov.lookup j = some lastl
   r0_eq : r0 = stIter e j (cycleFn P j lastl vl)
   sim : Sim e l0 r0
+  noHeadBelow : ∀ k ∈ rest, isHead r0.prov k = false
 
 theorem stIter_prov_lookup (s1 : St) (new c : Nat) :
     (stIter s1 j new).prov.lookup c
@@ -46,7 +47,7 @@ theorem pass_first (hR : ReadSpec P env read) (hH : ReadRH P env read)
     (hNF : NoFallback P) (s0 s1 : St) (v last : Nat) (hs : List Nat)
     (hI : Inv P env s0) (hst : s0.stack = j :: rest) (hp0 : s0.prov = []) (hc0 : s0.cache = [])
     (hev : evalM env read (P.node j).body s0 = .ok (v, hs, s1))
-    (hl : s1.prov.lookup j = some last) (hb : belowOf false s1 = false) :
+    (hl : s1.prov.lookup j = some last) (hb : belowOf s1 = false) :
     PrevPass P env read j rest s0 s1 (stIter s1 j (cycleFn P j last v)) v last := by
   obtain ⟨hI1, hst1, hE1, hrel⟩ := evalM_spec P env hR _ s0 v hs s1 hI hev
   have hst1' : s1.stack = j :: rest := hst1.trans hst
@@ -56,8 +57,18 @@ theorem pass_first (hR : ReadSpec P env read) (hH : ReadRH P env read)
     exact EvalRel.upper (fun c w hw => hI1.avail_le P env hw) hrel
   have hnew : le (cycleFn P j last v) (lfp P env j) :=
     (cycleFn_bounds hNF j last v).2 _ hv1 (hI1.provLe j last hl)
+  have hnb : ∀ k ∈ rest, isHead (stIter s1 j (cycleFn P j last v)).prov k = false := by
+    intro k hk
+    cases hh : isHead (stIter s1 j (cycleFn P j last v)).prov k with
+    | false => rfl
+    | true =>
+      obtain ⟨w, hw⟩ := isHead_iff.mp hh
+      have h2 := (stIter_prov_some j hw).2
+      have := (belowOf_false_iff s1 rest j hst1').mp hb k hk
+      unfold isHead at this
+      rw [h2] at this; cases this
   refine ⟨⟨hs, hev⟩, hI, hI1,
-    iterate_inv P env s1 j rest _ hI1 hst1' hnew (by rw [hl]; rfl), hst, hl, rfl, ?_⟩
+    iterate_inv P env s1 j rest _ hI1 hst1' hnew (by rw [hl]; rfl), hst, hl, rfl, ?_, hnb⟩
   refine ⟨hst1.symm, hE1.poisoned.symm, fun _ => rfl, ?_, ?_, ?_, ?_⟩
   · intro c _; simp [cval, stIter]
   · intro c w hw; simp [cval, hc0] at hw
@@ -71,10 +82,8 @@ theorem pass_first (hR : ReadSpec P env read) (hH : ReadRH P env read)
         cases h with
         | head => exact ⟨_, cv1_self s1 _ _⟩
         | tail _ h =>
-          rw [belowOf_false] at hb
-          have : s1.stack.tail.any (isHead s1.prov) = true :=
-            (below_iff s1).mpr ⟨c, by rw [hst1']; exact h, hc⟩
-          rw [hb] at this; cases this
+          have := (belowOf_false_iff s1 rest j hst1').mp hb c h
+          rw [hc] at this; cases this
       · by_cases hcj : c = j
         · subst hcj; exact ⟨_, cv1_self s1 c _⟩
         · rw [cv1_ne s1 j _ hcj]
@@ -94,6 +103,7 @@ structure NextPass (l0 e r0 : St) (vl lastl : Nat) (v' : Nat) (r1 : St) : Prop w
   st1 : r1.stack = j :: rest
   last1 : r1.prov.lookup j = some (cycleFn P j lastl vl)
   provSame : r1.prov = r0.prov
+  notBelow : belowOf r1 = false
   valLe : le vl v'
   newLe : le (cycleFn P j (cycleFn P j lastl vl) v') (lfp P env j)
   valsLe : ∀ c w, cv1 e j (cycleFn P j lastl vl) c = some w →
@@ -107,13 +117,14 @@ structure NextPass (l0 e r0 : St) (vl lastl : Nat) (v' : Nat) (r1 : St) : Prop w
     (stIter r1 j (cycleFn P j (cycleFn P j lastl vl) v')) v' (cycleFn P j lastl vl)
 
 theorem pass_next (hR : ReadSpec P env read) (hS : ReadSim P env read) (hNF : NoFallback P)
+    (hG : P.NoGate)
     (l0 e r0 : St) (vl lastl : Nat) (hP : PrevPass P env read j rest l0 e r0 vl lastl) :
     ∃ v' r1, NextPass P env read j rest l0 e r0 vl lastl v' r1 := by
-  obtain ⟨⟨hsl, hevl⟩, hIl, hIe, hIr, hstl, hlast, hr0, hSim⟩ := hP
+  obtain ⟨⟨hsl, hevl⟩, hIl, hIe, hIr, hstl, hlast, hr0, hSim, hnb0⟩ := hP
   obtain ⟨_, hste, _, _⟩ := evalM_spec P env hR _ l0 vl hsl e hIl hevl
   have hste' : e.stack = j :: rest := hste.trans hstl
   obtain ⟨v', hs', r1, hevr, hS1, hle, hp1⟩ :=
-    evalM_sim P env hR hS _ e l0 r0 vl hsl e hIl hIr hIe hSim (Ext.refl e) hevl
+    evalM_sim P env hR hS _ (noGate_node hG j) e l0 r0 vl hsl e hIl hIr hIe hSim (Ext.refl e) hevl
   obtain ⟨hI1, hst1, hE1, hrel⟩ := evalM_spec P env hR _ r0 v' hs' r1 hIr hevr
   have hst0 : r0.stack = j :: rest := by rw [hr0]; exact hste'
   have hst1' : r1.stack = j :: rest := hst1.trans hst0
@@ -153,7 +164,20 @@ theorem pass_next (hR : ReadSpec P env read) (hS : ReadSim P env read) (hNF : No
     refine ⟨w', ?_, hle'⟩
     rw [stIter_prov_lookup, hw1]
     exact hw'
-  refine ⟨v', r1, ⟨hs', hevr⟩, hI1, hst1', hlast1, hp1, hle, hnew, hvalsLe, ?_,
+  have hnb1 : belowOf r1 = false := by
+    rw [belowOf_false_iff r1 rest j hst1', hp1]; exact hnb0
+  have hnb2 : ∀ k ∈ rest,
+      isHead (stIter r1 j (cycleFn P j (cycleFn P j lastl vl) v')).prov k = false := by
+    intro k hk
+    cases hh : isHead (stIter r1 j (cycleFn P j (cycleFn P j lastl vl) v')).prov k with
+    | false => rfl
+    | true =>
+      obtain ⟨w, hw⟩ := isHead_iff.mp hh
+      have h2 := (stIter_prov_some j hw).2
+      have := hnb0 k hk
+      unfold isHead at this
+      rw [← hp1, h2] at this; cases this
+  refine ⟨v', r1, ⟨hs', hevr⟩, hI1, hst1', hlast1, hp1, hnb1, hle, hnew, hvalsLe, ?_,
     fun c w hw => (hprov c w hw).1, hchain, ?_⟩
   · intro c hc
     by_cases hcj : c = j
@@ -162,7 +186,8 @@ theorem pass_next (hR : ReadSpec P env read) (hS : ReadSim P env read) (hNF : No
       rw [cv1_ne r1 j _ hcj]
       exact hS1.cacheNone c hc
   · refine ⟨⟨hs', hevr⟩, hIr, hI1,
-      iterate_inv P env r1 j rest _ hI1 hst1' hnew (by rw [hlast1]; rfl), hst0, hlast1, rfl, ?_⟩
+      iterate_inv P env r1 j rest _ hI1 hst1' hnew (by rw [hlast1]; rfl), hst0, hlast1, rfl, ?_,
+      hnb2⟩
     refine ⟨hst1.symm, hE1.poisoned.symm, fun _ => rfl, ?_, ?_, hchain, ?_⟩
     · intro c _; simp [cval, stIter]
     · intro c w hw
@@ -175,6 +200,37 @@ theorem pass_next (hR : ReadSpec P env read) (hS : ReadSim P env read) (hNF : No
       refine ⟨w', ?_⟩
       rw [stIter_prov_lookup, hw]
       exact hw'
+
+/-- a loop that iterated once (gate-free program) can only end converged: no provisional state
+    is left and the head itself is final. -/
+theorem loop_iter_conv (hR : ReadSpec P env read) (hS : ReadSim P env read) (hNF : NoFallback P)
+    (hG : P.NoGate) :
+    ∀ (fuel stamp : Nat) (l0 e r0 : St) (vl lastl : Nat) (v : Nat) (hs : List Nat) (s' : St),
+      PrevPass P env read j rest l0 e r0 vl lastl →
+      executeMaybeIterate P env read j fuel stamp r0 = .ok (v, hs, s') →
+      s'.prov = [] ∧ s'.cache = [] ∧ s'.final.lookup j = some v := by
+  intro fuel
+  induction fuel with
+  | zero => intro stamp l0 e r0 vl lastl v hs s' _ h; simp [executeMaybeIterate] at h
+  | succ fuel ih =>
+    intro stamp l0 e r0 vl lastl v hs s' hP h
+    obtain ⟨v', r1, hN⟩ := pass_next P env read j rest hR hS hNF hG l0 e r0 vl lastl hP
+    obtain ⟨hs', hevr⟩ := hN.run
+    cases hc : converged (cache1Of r1 j (cycleFn P j (cycleFn P j lastl vl) v')) r1.prov with
+    | true =>
+      rw [emi_conv P env read j fuel stamp r0 hevr hN.last1 hN.notBelow hc] at h
+      injection h with h; injection h with e1 h; injection h with e2 e3
+      subst e1; subst e3
+      refine ⟨rfl, rfl, ?_⟩
+      rw [stConv_final, cv1_self]; rfl
+    | false =>
+      cases hi : SalsaVerif.Gen.Stamp.IterationStamp.increment_iteration stamp with
+      | none =>
+        rw [emi_too P env read j fuel stamp r0 hevr hN.last1 hN.notBelow hc hi] at h
+        cases h
+      | some stamp' =>
+        rw [emi_iter P env read j fuel stamp r0 hevr hN.last1 hN.notBelow hc hi] at h
+        exact ih stamp' r0 r1 _ v' _ v hs s' hN.next h
 
 end
 
